@@ -239,11 +239,14 @@ func (s *scheduler) settle() {
 // left and other runnable threads, whether to preempt (and to whom) is a
 // symbolic choice.
 func (s *scheduler) schedPoint(what string) {
-	s.points++
 	if s.preempt <= 0 || len(s.runq) == 0 {
 		return
 	}
+	// points are counted only while a preemption budget is active (vPreempt
+	// resets the counter), so harness set-up does not eat into the bound
+	s.points++
 	if s.points > s.i.path.exp.cfg.MaxSchedPoints {
+		s.i.path.exp.noteCut(fmt.Sprintf("more than %d scheduling points with preemption budget left: later points not explored", s.i.path.exp.cfg.MaxSchedPoints))
 		return
 	}
 	// candidates: runnable threads that are not waiting in vSettle
